@@ -173,6 +173,39 @@ def invert_ifelse(text: str) -> str:
     return ast.unparse(ast.fix_missing_locations(tree)) + "\n"
 
 
+def hoist_conditions(text: str) -> str:
+    """Behaviour-preserving: `if <compound test>:` -> `_cK = <test>` + `if _cK:` for plain if statements (not elif)
+    whose test is a comparison, boolean operation or call (evaluated exactly once either way)."""
+    tree = ast.parse(text)
+    counter = [0]
+
+    def process(body):
+        out = []
+        for st in body:
+            for fld in ("body", "orelse", "finalbody"):
+                sub = getattr(st, fld, None)
+                if isinstance(sub, list) and sub and isinstance(sub[0], ast.stmt):
+                    if fld == "orelse" and isinstance(st, ast.If) and len(sub) == 1 and isinstance(sub[0], ast.If):
+                        # elif chain: recurse into its bodies only
+                        sub[0].body = process(sub[0].body)
+                        sub[0].orelse = process(sub[0].orelse) if not (len(sub[0].orelse) == 1 and isinstance(sub[0].orelse[0], ast.If)) else sub[0].orelse
+                        continue
+                    setattr(st, fld, process(sub))
+            for h in getattr(st, "handlers", []) or []:
+                h.body = process(h.body)
+            if isinstance(st, ast.If) and isinstance(st.test, (ast.Compare, ast.BoolOp, ast.Call)) and not any(isinstance(x, (ast.NamedExpr, ast.Yield)) for x in ast.walk(st.test)):
+                counter[0] += 1
+                nm = f"_c{counter[0]}"
+                out.append(ast.Assign(targets=[ast.Name(id=nm, ctx=ast.Store())], value=st.test, lineno=st.lineno))
+                st.test = ast.Name(id=nm, ctx=ast.Load())
+            out.append(st)
+        return out
+
+    for fn in [n for n in ast.walk(tree) if isinstance(n, (ast.FunctionDef, ast.AsyncFunctionDef))]:
+        fn.body = process(fn.body)
+    return ast.unparse(ast.fix_missing_locations(tree)) + "\n"
+
+
 def _judge(args):
     vid, kind, prop, rules, src_root, edits_spec = args
     from sa.check import run_property
@@ -187,6 +220,8 @@ def _judge(args):
             edits.append((file, flip_comparisons))
         elif special == "invert":
             edits.append((file, invert_ifelse))
+        elif special == "hoist":
+            edits.append((file, hoist_conditions))
         else:
             edits.append((file, (lambda o, n, c: (lambda t: apply_edit(t, o, n, c)))(old, new, count)))
     try:
@@ -279,7 +314,7 @@ def run(prop: str, seed: int, root: str, coverage_out: dict, jobs: int = 16, onl
     rnd.shuffle(vs)
     tasks = []
     for v in vs:
-        special = {"<unparse>": "unparse", "<rename-locals>": "rename", "<flip-comparisons>": "flip", "<invert-ifelse>": "invert"}.get(v.old)
+        special = {"<unparse>": "unparse", "<rename-locals>": "rename", "<flip-comparisons>": "flip", "<invert-ifelse>": "invert", "<hoist-conditions>": "hoist"}.get(v.old)
         files = v.file.split(",") if special else [v.file]
         tasks.append((v.vid, v.kind, prop, v.rules, root, [(f, v.old, v.new, v.count, special) for f in files]))
     results = []
